@@ -395,3 +395,135 @@ def validate_build_plan(ctx, R, seed, count):
     R.validation["disagreements"] += dis
     if dis:
         raise Inconclusive("translator validation (build_plan): %d/%d concrete cases disagree with the native build" % (dis, len(cases)))
+
+
+# ------------------------------------------------------------------ is_excluded (dispatch glue between glob_match and build_plan)
+
+PATH_ALPHABET = "ab*."
+
+
+def ref_is_excluded(rel, pats):
+    for p in pats:
+        p = p.rstrip("/")
+        if not p:
+            continue
+        if "/" in p:
+            if ref_glob(p, rel):
+                return True
+        else:
+            for comp in rel.split("/"):
+                if comp and ref_glob(p, comp):
+                    return True
+    return False
+
+
+def is_excluded_setup(ctx, npat, P, L):
+    ex = ctx.ex(K=npat * ((L + 1) // 2 + 2) + npat + 3)
+    stdmodels.install_strings(ex, max(P, L))
+    ex.k_by_fn["glob_match"] = (L + 1) * (P + 2) + P + 3
+    pats = []
+    for i in range(npat):
+        pv, pl, pc = sym_str(ex, "pat%d_" % i, P, alphabet="ab*?./")
+        pats.append((pv, pl, pc))
+    rv, rl, rc = sym_str(ex, "rel", L, alphabet=PATH_ALPHABET + "/")
+    SL, DOT = ord("/"), ord(".")
+    # relative path as produced by a directory walk: no leading '/', no "." / ".." components
+    ex.assumes.append(z3.Or(rl == 0, rc[0] != SL))
+    for a in range(L):
+        for b in range(a + 1, min(a + 2, L) + 1):
+            is_comp = z3.And(b <= rl, (rc[a - 1] == SL) if a > 0 else z3.BoolVal(True), z3.Or(b == rl, rc[b] == SL) if b < L else (b == rl),
+                             *[rc[k] != SL for k in range(a, b)])
+            ex.assumes.append(z3.Not(z3.And(is_comp, *[rc[k] == DOT for k in range(a, b)])))
+    st = State()
+    plist = VList([p[0] for p in pats], I(npat), "String")
+    r = ex.exec_fn(ctx.fn(ex, "is_excluded"), [VRef("val", val=rv), VRef("val", val=plist)], st)
+    if r is None:
+        raise Inconclusive("is_excluded never returns")
+    ex.exit_guards.append(st.guard)
+    return ex, r, pats, (rv, rl, rc)
+
+
+def is_excluded_spec(pats, rel, P, L):
+    rv, rl, rc = rel
+    SL = ord("/")
+    out = []
+    for (pv, pl, pc) in pats:
+        # trimmed length
+        tl = I(0)
+        for i in range(P):
+            tl = z3.If(z3.And(i < pl, pc[i] != SL), I(i + 1), tl)
+        has_slash = z3.Or(*[z3.And(i < tl, pc[i] == SL) for i in range(P)])
+        whole = glob_spec(tl, pc, rl, rc, P, L)
+        comp_any = []
+        for a in range(L):
+            for b in range(a + 1, L + 1):
+                is_comp = z3.And(b <= rl, (rc[a - 1] == SL) if a > 0 else z3.BoolVal(True), z3.Or(b == rl, rc[b] == SL) if b < L else (b == rl),
+                                 *[rc[k] != SL for k in range(a, b)])
+                comp_any.append(z3.And(is_comp, glob_spec(tl, pc, I(b - a), rc[a:b], P, b - a)))
+        out.append(z3.And(tl > 0, z3.If(has_slash, whole, z3.Or(*comp_any) if comp_any else z3.BoolVal(False))))
+    return z3.Or(*out) if out else z3.BoolVal(False)
+
+
+def is_excluded_obligation(ctx, prover, pid, npat, P, L):
+    R = prover.R
+    ex, r, pats, rel = is_excluded_setup(ctx, npat, P, L)
+    spec = is_excluded_spec(pats, rel, P, L)
+    if pid == "C15":
+        goals = {"matching-path-is-excluded": z3.Implies(spec, r.t)}
+    else:
+        goals = {"equals-definition": r.t == spec}
+
+    def witness(name, model, neg):
+        ps = [model_str(model, pl, pc) for (_, pl, pc) in pats]
+        rs = model_str(model, rel[1], rel[2])
+        case = {"fn": "is_excluded", "path": rs, "excludes": ps}
+        want = ref_is_excluded(rs, ps)
+        res = native.run_both(case)
+        bad = {k: v for k, v in res.items() if v.get("result") != want}
+        if bad:
+            case["expected"] = want
+            case["observed"] = res
+            return {"confirmed": True, "replay_path": R.save_replay("%s/is_excluded" % pid, case), "key": "%s/is_excluded" % pid,
+                    "detail": "is_excluded(%r, %r): native %s, definition %s" % (rs, ps, bad, want)}
+        return {"confirmed": False, "detail": "is_excluded(%r, %r): native agrees with the definition (%s) — encoding or std-model problem" % (rs, ps, want)}
+
+    return prover.prove(ex, goals, "%s/is_excluded" % pid,
+                        "%d pattern(s) of length <= %d over 'ab*?./' and a relative path of length <= %d over %r plus '/', no leading '/', "
+                        "no '.'/'..' components; loops unrolled with unwinding assertions" % (npat, P, L, PATH_ALPHABET),
+                        ["is_excluded", "glob_match"], witness)
+
+
+def validate_is_excluded(ctx, R, seed, count):
+    rnd = random.Random(seed)
+    fixed = [("target/debug/app", ["target", "*.tmp"]), ("crate/target/x", ["target"]), ("build/out.tmp", ["*.tmp"]), ("src/main.rs", ["target", "*.tmp"]),
+             ("node_modules/x/y", ["node_modules/"]), ("a/b/c.log", ["a/*/c.log"]), ("a/b/c.log", ["a/c.log"]), ("x", ["", "/"])]
+    cases = list(fixed)
+    for _ in range(count):
+        rel = "/".join("".join(rnd.choice("ab*.") for _ in range(rnd.randrange(1, 3))) for _ in range(rnd.randrange(1, 4)))
+        rel = "/".join(c for c in rel.split("/") if c not in (".", ".."))
+        pats = ["".join(rnd.choice("ab*?./") for _ in range(rnd.randrange(0, 4))) for _ in range(rnd.randrange(1, 3))]
+        if rel:
+            cases.append((rel, pats))
+    mine, nj = [], []
+    for rel, pats in cases:
+        L = max(len(rel), 1)
+        P = max([len(p) for p in pats] + [1])
+        ex = ctx.ex(K=len(pats) * (L + 3) + len(pats) + 3)
+        stdmodels.install_strings(ex, max(P, L))
+        ex.k_by_fn["glob_match"] = (L + 1) * (P + 2) + P + 3
+        st = State()
+        plist = VList([lit_str(p) for p in pats], I(len(pats)), "String")
+        r = ex.exec_fn(ctx.fn(ex, "is_excluded"), [VRef("val", val=lit_str(rel)), VRef("val", val=plist)], st)
+        mine.append(None if r is None else z3.is_true(simp(r.t)))
+        nj.append({"fn": "is_excluded", "path": rel, "excludes": pats})
+    nat = native.run_cases(nj, "dev")
+    dis = 0
+    for c, m, r in zip(nj, mine, nat):
+        if r.get("result") != m:
+            dis += 1
+            R.validation["samples"].append({"case": c, "encoding": m, "native": r})
+    R.validation["cases"] += len(nj)
+    R.validation["disagreements"] += dis
+    if dis:
+        raise Inconclusive("translator validation (is_excluded): %d/%d concrete cases disagree with the native build: %s"
+                           % (dis, len(nj), json.dumps(R.validation["samples"][-1])[:300]))
